@@ -21,24 +21,30 @@ CHECKS = {
    text='The full statement is FALSE of the unchanged code and that is machine-checked: C04_bw_halt_refuted_F1, C04_bw_spin_refuted_F1, '
         'C04_bw_halt_refuted_F2, C04_stmt_refuted (witnesses by vm_compute on the faithful Gallina model of reason.rs, which is tied to the '
         'code on every run incl. Refuted step numbers and panics). Proved positively: depth monotonicity with the same step number (C04_bw_mono). '
+        'GUARDED GLOBAL THEOREM proved (Proofs/ReasonSound.v): C04_bw_refuted_sound_guarded - with the F1 branch repaired (model switch sw_nodrop), the halt table complete '
+        '(halt_box_ok: the F2 guard, decidable), A0 defined, and the decidable run guard bw_skips_justified (every configuration removed by the blanks pruning was an identical duplicate of a '
+        'frontier configuration; computed by an instrumented copy of the model loop, Model/ReasonInstr.v, proved to give the same answer; never violated on 2.4M refuted runs), a Refuted '
+        'answer implies the machine never halts / never erases the tape (no run guard needed) / never spins out; C04_halt_guards_necessary shows each static guard is needed. '
         'Proved LOCALLY (Proofs/BackstepSound.v, 72 lemmas): C04_backstep_exact (a plain backward step is a sound over-approximation), C04_indef_covers (indefinite sweeps), '
         'C04_check_spinout_spec (exactly when the F1 branch fires), C04_plain_round_sound (one full round of the main loop covers the real predecessor outside the F1 branch), target '
-        'completeness; the induction over rounds and the blanks-skip argument are not done. '
+        'completeness. Not proved: that the run guard always holds (C04_skips_always_justified_stmt). '
         'Every refutation the implementation gives on the explored programs is tested against a real run (native pre-filter, confirmed by the '
         'extracted cell-by-cell spec); falsified refutations are attributed to the two recorded call sites by model counterfactuals '
         '(KNOWN-FINDING), anything else is a VIOLATION with the program/goal/depth as replay. Unguarded global soundness is not a theorem here.',
    note=COMMON_NOTE + 'Known findings F1 (reason.rs:175-177) and F2 (instrs.rs params) are open: their repair changes pinned test counts. '
         'Attribution by counterfactual assumes the faithful model agrees with the code on the case (checked).',
    tech='Rocq/Coq refutation theorems + monotonicity proof + model/implementation correspondence + extracted-spec oracle exploration'),
- 'C05': dict(cat='other', sec='DESIGN.md §6 C05, §5 F2',
-   text='Partial: the Gallina model of segment.rs (every function mirrored, tied to the code on every run through both the trait with the text table size and '
-        'the py_ wrappers) has no global soundness theorem yet (the full statement is kept as C05_seg_verdicts_true_stmt). Machine-checked: the F2 refutation at '
-        'the wrapper (C05_wrapper_refuted_F2, with the counterfactual C05_wrapper_counterfactual) and limit monotonicity (C05_seg_mono). The property itself is decided '
-        'on the explored programs: every settled verdict of the implementation (refuted / halt / blank / spinout / repeat) is tested against a real run (native pre-filter, '
-        'confirmed by the extracted cell-by-cell spec; positive verdicts not decided within the budget are attacked by a translated-cycle certificate search). '
-        'Falsified wrapper verdicts are attributed to F2 by the model counterfactual (true table size); anything else is a VIOLATION.',
-   note=COMMON_NOTE + 'Known finding F2 open at the wrapper entry point. Observation (not a violation): seg_cant_blank can never answer refuted (incomplete, not unsound).',
-   tech='Rocq/Coq refutation + monotonicity theorems; model/implementation correspondence; extracted-spec oracle exploration'),
+ 'C05': dict(cat='proof', sec='DESIGN.md §6 C05, §5 F2, §12',
+   text='Coq theorem C05_seg_verdicts_true over the Gallina model of segment.rs, for the trait entry point with the true table size (0 < S, 0 < C, program within the table): '
+        'refuted(halt) => the machine never halts, refuted(spin-out) => never spins out, and the positive verdicts halt / spinout / blank => the machine does it, repeat => it runs forever; '
+        'C05_seg_blank_never_refuted (the blank goal is never refuted at all, so that clause holds vacuously - an incompleteness of the code, not an unsoundness). Layers: C05_seg_tape_step_sim '
+        '(window-tape step = base steps inside the window), C05_seg_run_to_edge_sound, C05_seg_init_exact (an init config is a REAL configuration with blanks outside the window), '
+        'C05_seg_positive_sound(_any_params), C05_seg_refuted_sound (closure of the processed configurations + position-counting argument; no guard on the blanks pruning needed), C05_seg_mono. '
+        'The statement as first written (without 0 < S, 0 < C) is refuted: C05_seg_verdicts_true_stmt_degenerate. At the py_ wrappers the inferred table size breaks refutations: '
+        'C05_wrapper_refuted_F2 (known finding F2). Tie: real seg_cant_* (trait and wrappers, incl. sequences on one thread) vs extracted model; every settled verdict of the '
+        'implementation tested against a real run + certificate search; wrapper failures attributed to F2 by the model counterfactual.',
+   note=COMMON_NOTE + 'Theorems closed under the global context. Known finding F2 open at the wrapper entry point only.',
+   tech='Rocq/Coq proof (window simulation, init-flag invariant, closure + counting argument) + model/implementation correspondence + extracted-spec oracle'),
  'C06': dict(cat='proof', sec='DESIGN.md §6 C06, §5 F2, §12',
    text='Coq theorems over the Gallina model of cps.rs, for EVERY processing order of the HashSet (order is a parameter of the model; order_ok = it is a permutation): '
         'C06_cps_cant_halt_sound (under the table-size guard dims_ok, needed only for the early exit halt_slots().is_empty() = known finding F2, refuted outside the guard by '
